@@ -8,6 +8,11 @@ import c11
 
 MOD_MAIN = "__parse__Prog"
 
+
+def _bmod(prog):
+    import anchors
+    return anchors.binder_module(prog)
+
 EXPECT = {
     "ListDestructureItemMismatch": ("Ne", "lhs_len", "rhs_len"),
     "ListCollectTooFew": ("Gt", ("sub", "lhs_len", 1), "rhs_len"),
@@ -138,7 +143,7 @@ def rule_R13_3(ctx):
         r.inst("%s: remaining-key set initialised by %s; %d removals" % (f.path, inits, len(removes)))
         # every call that binds one property is followed by a removal
         binders = [c for c in f.calls() if not c.is_ptr and prog.fns.get(c.res) is not None
-                   and prog.fns[c.res].module.startswith("eval::bind") and not prog.fns[c.res].is_closure
+                   and prog.fns[c.res].module.startswith(_bmod(prog)) and not prog.fns[c.res].is_closure
                    and any("BTreeMap" in t for t in c.argtys) and c.res != f.path]
         for c in binders:
             # through the `?`: the Continue edge must reach a removal before the loop header
@@ -248,7 +253,7 @@ def rule_R13_5(ctx):
                    "target) silently accepts a missing property")
     n = 0
     for f in prog.hand_fns():
-        if not f.module.startswith("eval::bind") or f.is_closure or f.from_expansion:
+        if not f.module.startswith(_bmod(prog)) or f.is_closure or f.from_expansion:
             continue
         gets = [c for c in f.calls() if "BTreeMap" in (c.res_full or "") and (c.res or "").split("::")[-1] == "get"]
         errs = [1 for bb, i, pl, kd, ao, sp in f.aggregates(ERR, "PropNotFound")]
